@@ -15,43 +15,43 @@ CHECKS = {
  "C01": dict(
     level="exploration", design="2/C01",
     technique="runtime monitor: differential round-trip oracle (generator mirror tree vs parsed result via public API) over seeded + hand-enumerated value-model messages; Miri/ASan layers in thorough",
-    text="Seeded exploration of the public value model: every generated message is encoded by the library and parsed back by the blocking parser (from to_bytes and from into_read) and, every 4th case, by the async parser; every other message that additions alone can produce is additionally built through IppAttributes::add only (shuffled, some attributes first added with a decoy value and replaced later); the result is compared structurally with the generator's own mirror tree and the payload byte-for-byte. A deterministic prefix enumerates each of the 22 kinds, every ordered pair of kinds as a 2-set, multi-valued members, sets of collections, nested collections, repeated/empty groups and every boundary length. Held = no difference on the executions listed in the evidence; nothing is claimed about messages not generated.",
+    text="Seeded exploration of the public value model: every generated message is encoded by the library and parsed back by the blocking parser (from to_bytes and from into_read) and, every 4th case, by the async parser; every other message that additions alone can produce is additionally built through IppAttributes::add only (shuffled, some attributes first added with a decoy value and replaced later) or through add() followed by attributes_mut().insert(); messages are also re-encoded after header_mut() / add(), and as modified clones of an already encoded sibling; the result is compared structurally with the generator's own mirror tree and the payload byte-for-byte. A deterministic prefix enumerates each of the 22 kinds, every ordered pair of kinds as a 2-set, multi-valued members, sets of collections, nested collections, repeated/empty groups and every boundary length. Held = no difference on the executions listed in the evidence; nothing is claimed about messages not generated.",
     note="Trusted: the harness's own mirror conversion (public API only) and generator. Domain as in the property's quantifier (utc_dir one octet; Other.tag among tags without a kind of their own)."),
  "C03": dict(
     level="exploration", design="2/C03",
     technique="runtime monitor: independent RFC 8010 reference decoder/encoder (no code shared with ipp) judging the library's bytes over many fresh map instances",
-    text="The bytes of to_bytes() for each generated message (T fresh instances per message, so the randomly keyed maps take different iteration orders; every other instance is built through IppAttributes::add alone, with replaced decoys, when additions can produce the message) are decoded by an independent strict RFC 8010 decoder (exact lengths, registered body widths, separators with empty name and own tag, collection bracketing, unique names, exactly one end tag, operation group first), the decoded content is compared with the mirror of what was encoded, and a reference encoder given the observed attribute order must reproduce the bytes exactly. The evidence reports how many cases showed more than one in-memory iteration order and more than one order on the wire across the instances (observed, not demanded: a sorting encoder or ordered containers legitimately show one).",
+    text="The bytes of to_bytes() for each generated message (T fresh instances per message, so the randomly keyed maps take different iteration orders; every other instance is built through IppAttributes::add alone or add() + attributes_mut(), with replaced decoys, when additions can produce the message; the last instance is a modified clone of an already encoded sibling message) are decoded by an independent strict RFC 8010 decoder (exact lengths, registered body widths, separators with empty name and own tag, collection bracketing, unique names, exactly one end tag, operation group first), the decoded content is compared with the mirror of what was encoded, and a reference encoder given the observed attribute order must reproduce the bytes exactly. The evidence reports how many cases showed more than one in-memory iteration order and more than one order on the wire across the instances (observed, not demanded: a sorting encoder or ordered containers legitimately show one).",
     note="Trusted: the reference codec (ippref), written from RFC 8010 and anchored at start-up to hand-transcribed RFC example messages."),
 
  "C02": dict(
     level="exploration", design="2/C02",
     technique="runtime monitoring with crash attribution: catch_unwind + child processes whose signal handler names the (case, phase) that aborted; logical-step hang oracles (reads past EOF, polls without wake-up); Miri/ASan layers",
-    text="The quantifier's input families are executed literally: every <=2-byte tail and a 1M-sample (thorough: all 2^24) of 3-byte tails after a valid header, the full tag x length x fill x truncation grid (also straight into IppValue::parse), all with-language inner-length pairs, every token sequence up to length 4 (thorough 5) over the 16-token alphabet, seeded grammar-aware mutations, every tag with every 1-byte body and selected 2-byte bodies, every tag with periodic self-describing bodies (a short word such as 00 00 00 7f repeated to 12 B..64 KiB, run on a 2 MiB stack), every pair of 24 lengths (0..4097) as consecutive names / values / member names / member values, names of 21845..65535 undecodable octets, and 14 structural bomb families up to 1 MiB with each phase (parse, display, debug, encode, traverse, clone+eq, drop) in its own process. Both parsers run on every input; any panic, abort, stack overflow, read loop past EOF or unproductive poll loop is a violation carrying the input. The recorded stack overflows of post-parse recursion on deeply nested collections are listed known findings (exact family+phase signatures); anything else still fails the check.",
+    text="The quantifier's input families are executed literally: every <=2-byte tail and a 1M-sample (thorough: all 2^24) of 3-byte tails after a valid header, the full tag x length x fill x truncation grid (also straight into IppValue::parse), all with-language inner-length pairs, every token sequence up to length 4 (thorough 5) over the 16-token alphabet, seeded grammar-aware mutations, every tag with every 1-byte body and selected 2-byte bodies, every tag with periodic self-describing bodies (a short word such as 00 00 00 7f repeated to 12 B..64 KiB, run on a 2 MiB stack), every pair of 24 lengths (0..4097) as consecutive names / values / member names / member values, names of 21845..65535 undecodable octets, a dictionary of tricky (escape-, number- and URI-shaped) strings under every text-like tag, foreign-protocol preambles in place of the header, and 14 structural bomb families up to 1 MiB with each phase (parse, display, debug, encode, traverse, clone+eq, drop) in its own process. Both parsers run on every input; any panic, abort, stack overflow, read loop past EOF or unproductive poll loop is a violation carrying the input; the parsed result is also re-encoded after being edited through attributes_mut() / groups_mut() / add(). The recorded stack overflows of post-parse recursion on deeply nested collections are listed known findings (exact family+phase signatures); anything else still fails the check.",
     note="8 MiB case-thread stack; hang decided on logical steps, wall clock only as watchdog (inconclusive). Inputs not executed are not covered."),
  "C04": dict(
     level="exploration", design="2/C04",
     technique="runtime monitor: reference interpretation (independent RFC 8010 decoder + interp) vs parser result over grammar-generated wire trees and enumerated token sequences",
-    text="Wire-level message trees are generated from the RFC 8010 grammar (every value tag 0x10-0x4a, non-UTF-8 text, repeated/empty groups, messages not starting with the operation group, mixed sets, multi-valued members, sets of collections, boundary lengths), encoded by the reference encoder and parsed by the library; the result read through the public API must equal the reference interpretation. Every token sequence up to length 4 (thorough 6) that the reference decoder accepts is judged the same way, and bytes outside the tag ranges substituted at tag positions must yield exactly InvalidTag(b). Coverage floors (all 57 non-structural value tags, each listed form seen) make a thin run inconclusive.",
+    text="Wire-level message trees are generated from the RFC 8010 grammar (every value tag 0x10-0x4a, non-UTF-8 text, repeated/empty groups, messages not starting with the operation group, mixed sets, multi-valued members, sets of collections, boundary lengths), encoded by the reference encoder and parsed by the library; the result read through the public API must equal the reference interpretation. Every 6th message is additionally read as the second message of a stream, through the reader parse_parts() handed back for the first. Every token sequence up to length 4 (thorough 6) that the reference decoder accepts is judged the same way, and bytes outside the tag ranges substituted at tag positions must yield exactly InvalidTag(b). Coverage floors (all 57 non-structural value tags, each listed form seen) make a thin run inconclusive.",
     note="Trusted: ippref (reference codec), anchored to RFC example vectors. Inputs the reference decoder rejects are not judged."),
  "C05": dict(
     level="exploration", design="2/C05",
     technique="runtime monitor: differential oracle blocking vs async parser under scripted delivery schedules driven by a manual executor (all compositions for short inputs, not-ready/deferred-wake injection)",
-    text="For a strided sample of the C02 hostile corpus and C04 well-formed trees the blocking parser's outcome (content incl. payload, or error kind incl. offending tag / I/O kind) is compared with the async parser's under: whole, 1-byte, uniform chunks, random compositions with 0-2 Pending results per boundary (immediate or deferred wake), and for a budgeted set of inputs of 9..16 (thorough 21) bytes all 2^(n-1) compositions, short ones additionally under 7 not-ready patterns. Deadlock and busy-loop are logical-step verdicts of the executor. Evidence reports schedules, polls, pendings and deferred wakes actually observed.",
+    text="For a strided sample of the C02 hostile corpus and C04 well-formed trees the blocking parser's outcome (content incl. payload, or error kind incl. offending tag / I/O kind) is compared with the async parser's under: whole, 1-byte, uniform chunks, random compositions with 0-2 Pending results per boundary (immediate or deferred wake), and for a budgeted set of inputs of 9..16 (thorough 21) bytes all 2^(n-1) compositions, short ones additionally under 7 not-ready patterns. The header-and-attributes-only entry point is compared as well (same outcome, same trailing bytes through reader.into_inner()). Deadlock and busy-loop are logical-step verdicts of the executor. Evidence reports schedules, polls, pendings and deferred wakes actually observed.",
     note="Schedules are delivered by the harness's scripted AsyncRead; real reactors are covered by C11."),
  "C06": dict(
     level="exploration", design="2/C06",
     technique="runtime monitor: invariant on the scripted source's read log (bytes delivered at return == offset of end-of-attributes tag + 1) plus differential result check across fragmentations",
-    text="Four entry points (blocking/async x parse/parse_parts) are run per (message, payload, schedule). The scripted source implements plain and native vectored reads, and honours the full requested size in 'whole' mode, so any layer that reads ahead over-consumes and is seen in the log; other schedules go down to 1-byte reads, Interrupted before every read (blocking), Pending with immediate/deferred wake (async) and all 2^(n-1) compositions for short messages. Checked: position at return, the reader from parse_parts yields exactly the rest, payload byte-identical (quick up to 2.3 MB i.e. beyond 2^20, thorough up to 17 MB i.e. beyond 2^24, incl. payloads that are themselves IPP messages); the hand-enumerated shapes with every boundary length (incl. 32767/32768) run as a deterministic prefix, result equal to the unfragmented parse.",
+    text="Four entry points (blocking/async x parse/parse_parts) are run per (message, payload, schedule). The scripted source implements plain and native vectored reads, and honours the full requested size in 'whole' mode, so any layer that reads ahead over-consumes and is seen in the log; other schedules go down to 1-byte reads, Interrupted before every read (blocking), Pending with immediate/deferred wake (async) and all 2^(n-1) compositions for short messages. Checked (a zero-length read on the payload first): position at return, the reader from parse_parts yields exactly the rest, payload byte-identical (quick up to 2.3 MB i.e. beyond 2^20, thorough up to 17 MB i.e. beyond 2^24, incl. payloads that are themselves IPP messages); the hand-enumerated shapes with every boundary length (incl. 32767/32768) run as a deterministic prefix, result equal to the unfragmented parse.",
     note="End-tag offset computed by the reference decoder. Trusted: scripted source and log."),
  "C07": dict(
     level="fault_enumeration", design="2/C07",
     technique="runtime fault injection: exhaustive per-message enumeration of cut points and (offset, I/O error kind) faults on a scripted source, both parsers",
-    text="For each of 300 (thorough 20000) well-formed messages (9 B - 2 KiB of header+attributes, incl. builder requests) every cut point before the end tag and every (offset, kind) single fault over 8 error kinds is injected, under whole and fragmented delivery, into both parsers; a cut must give Err, a fault must give Err(IoError) of exactly the injected kind; Ok or panic is a violation. Enumeration is exhaustive per message, sampling is over messages.",
+    text="For each of 300 (thorough 20000) well-formed messages (9 B - 2 KiB of header+attributes, incl. builder requests) every cut point before the end tag and every (offset, kind) single fault over 8 error kinds is injected, under whole and fragmented delivery, into both parsers; a cut must give Err, a fault must give Err(IoError) of exactly the injected kind; Ok or panic is a violation; every 5th (offset, kind) pair also with the stream reaching the parsers through an IppPayload, plus sampled cuts and faults around names / values of up to 65535 octets. Enumeration is exhaustive per message, sampling is over messages.",
     note="Faults are single (one per run). WouldBlock judged for the blocking reader only, as the property states."),
  "C09": dict(
     level="exploration", design="2/C09",
     technique="runtime monitor: positional oracle on the reference decoder's reading of to_bytes(), each program rebuilt many times with fresh randomly keyed maps",
-    text="Every builder/constructor program of C10 (or a raw request/response) followed by 0..6 shuffled further additions (vocabulary incl. job-id, job-uri, the header attributes and every RFC 8011 operation attribute name) is rebuilt 32 (thorough 256) times; in every instance the operation group must come first with attributes-charset 1st, attributes-natural-language 2nd, printer-uri or job-uri 3rd and job-id 4th (printer-uri + job-id). How many cases showed more than one order of the unconstrained attributes across the rebuilt instances is reported as evidence (a sorting encoder legitimately shows one).",
+    text="Every builder/constructor program of C10 (or a raw request/response) followed by 0..6 shuffled further additions (every third case encoding the message before and between them; raw requests over every operation the library knows) (vocabulary incl. job-id, job-uri, the header attributes and every RFC 8011 operation attribute name) is rebuilt 32 (thorough 256) times; in every instance the operation group must come first with attributes-charset 1st, attributes-natural-language 2nd, printer-uri or job-uri 3rd and, for job operations, job-id 4th (printer-uri + job-id). How many cases showed more than one order of the unconstrained attributes across the rebuilt instances is reported as evidence (a sorting encoder legitimately shows one).",
     note="printer-uri together with job-uri is not generated (undefined by RFC 8011)."),
  "C10": dict(
     level="exploration", design="2/C10",
